@@ -12,6 +12,9 @@ C = {
  "C02": ("enum", "exhaustive enumeration of messages/bundles x every capacity, guard pages and forked ASan cases",
          "Every message and bundle of a small-scope family is constructed into exact-size destinations of EVERY capacity 0..needed+8 that touch a PROT_NONE page (both sides) with canaries; fail-closed and exact-size clauses are checked on each; the library's own fixed buffers (ThreadLink MaxMsg buffers, RtData's 8192-byte stack buffer) are driven around their limits under AddressSanitizer, one forked child per case.",
          "page granularity 4096; AddressSanitizer for the C++ sites; reference encoder"),
+ "C03": ("enum", "exhaustive enumeration of realtime operations over the small-scope input families under an interposed allocator/lock/stream layer",
+         "Every message, bundle, pattern match, dispatch (hashed, linear, enumerated, nested tables, default handler, matching / non-matching / oversized messages, with and without location buffer), macro-generated parameter port callback with default reply/broadcast forwarding, and ThreadLink operation of the enumerated families runs inside a marked realtime section in which any call to the allocator, operator new/delete, a pthread lock or write(2) is counted; all counters must stay zero.",
+         "entry points interposed at link time; self-test at start-up; locks inside libc other than via write(2) are invisible"),
  "C04": ("enum", "exhaustive enumeration of port tables (all subsets of a name universe) x derived addresses against a reference matcher",
          "Every non-empty subset of an 11-name (thorough 16) universe is built as a real Ports table in four variants with/without default handler, plus 2- and 3-level nestings; each is dispatched every address derived by single-character edits in three dispatch modes; invocations, runtime object, d.loc, d.port and d.matches are compared with a level-by-level reference matcher. Exhaustive over that family, which is what makes the library's heuristic perfect hash vary.",
          "reference matcher engine/refmatch.h; recording callbacks replicate rRecurCb for sub-trees"),
@@ -77,7 +80,7 @@ for pid, (engine, technique, text, note) in sorted(C.items()):
 na = []
 for p in props:
     if p["id"] not in C:
-        na.append(dict(property_id=p["id"], reason="check under construction in this session (harness not yet running clean); model checking applies and it will be claimed when done"))
+        na.append(dict(property_id=p["id"], reason="not claimed"))
 m = dict(version=1, setup_cmd="python3 run.py --setup",
          hooks=dict(guard="none", enable="no source hooks: every check compiles the sources of /repo directly (engine/tl_hook.h pre-include for the C06 translation unit, link-time interposition of time/malloc); see DESIGN.md section 1",
                     baseline_off_cmd="sh tools/baseline.sh /repo", source_commits=[], add_only=True),
